@@ -13,9 +13,12 @@ pub struct BlockHashTableColumnBuilder {}
 
 impl<E: FieldElement<BaseField = Felt>> AuxColumnBuilder<E> for BlockHashTableColumnBuilder {
     fn init_responses(&self, main_trace: &MainTrace, alphas: &[E]) -> E {
+        // the program hash is in the hasher state of the first HALT row; when the program fills
+        // the trace up to the rows reserved for random values there is no HALT row, and the hash
+        // is in the hasher state of the END row of the root block, the last row before them
         let row_index = (0..main_trace.num_rows())
             .find(|row| main_trace.get_op_code(*row) == Felt::from(HALT))
-            .expect("execution trace must include at least one occurrence of HALT");
+            .unwrap_or(main_trace.num_rows() - crate::trace::NUM_RAND_ROWS - 1);
         let program_hash = main_trace.decoder_hasher_state_first_half(row_index);
 
         // Computes the initialization value for the block hash table.
